@@ -396,10 +396,21 @@ func (c *client) sendErrorToAll(err error, readLoopStops bool) {
 	c.mutex.Unlock()
 }
 
+// workDoneDecMode refuses fields that a work done message does not have. A run's result is taken from this
+// message, so a payload that is not a work done message (a damaged one, or that of another message type under a
+// damaged message ID) must not be read as an empty result.
+var workDoneDecMode = func() cbor.DecMode {
+	decMode, err := cbor.DecOptions{ExtraReturnErrors: cbor.ExtraDecErrorUnknownField}.DecMode()
+	if err != nil {
+		panic(err)
+	}
+	return decMode
+}()
+
 func (c *client) handleWorkDoneMessage(runtimeMessage DecodedRuntimeMessage) {
 	var doneMessage WorkDoneMessage
 	var result ExecutionResult
-	if err := cbor.Unmarshal(runtimeMessage.RawMessageData, &doneMessage); err != nil {
+	if err := workDoneDecMode.Unmarshal(runtimeMessage.RawMessageData, &doneMessage); err != nil {
 		c.logger.Errorf("Failed to decode work done message (%v) for run ID '%s' ", err, runtimeMessage.RunID)
 		result = NewErrorExecutionResult(fmt.Errorf("failed to decode work done message (%w)", err))
 	} else {
@@ -537,7 +548,12 @@ func (c *client) getResultV1(
 	stepData schema.Input,
 ) ExecutionResult {
 	var doneMessage WorkDoneMessage
-	if err := cborReader.Decode(&doneMessage); err != nil {
+	var rawDoneMessage cbor.RawMessage
+	err := cborReader.Decode(&rawDoneMessage)
+	if err == nil {
+		err = workDoneDecMode.Unmarshal(rawDoneMessage, &doneMessage)
+	}
+	if err != nil {
 		err = fmt.Errorf("failed to read or decode work done message (%w) for step %s", err, stepData.ID)
 		c.logger.Errorf(err.Error())
 		return NewErrorExecutionResult(err)
